@@ -70,7 +70,7 @@ def check_state(h, v, acc, record=True):
                 acc.counters['source_mutated_by_probe'] += 1
                 v = build(h)
                 vs = AnsiStr(v)
-            for form in ('slice', 'clip', 'str'):
+            for form in ('slice', 'clip', 'str', 'clipi', 'strclip'):
                 acc.transitions += 1
                 case = {'hist': h, 'op': [form, i, j]}
                 try:
@@ -78,6 +78,18 @@ def check_state(h, v, acc, record=True):
                         r = v[i:j]
                     elif form == 'clip':
                         r = v.clip(i, j)
+                    elif form == 'clipi':
+                        w = build(h)
+                        r = w.clip(i, j, inplace=True)
+                        if r is not w:
+                            bad.append(('clip-inplace-identity', case, 'clip(inplace=True) did not return the receiver'))
+                            continue
+                    elif form == 'strclip':
+                        r = vs.clip(i, j)
+                        if type(r) is not AnsiStr:
+                            bad.append(('slice-type', case, 'AnsiStr.clip returned %s' % type(r).__name__))
+                            continue
+                        r = model.content(r)
                     else:
                         r = vs[i:j]
                         if type(r) is not AnsiStr:
